@@ -319,6 +319,13 @@ def w_history(ctx, rng, i):
         k = int(rng.integers(0, 3))
         kern = [None, R2LogR2RBF(s.points.copy()), R2LogRRBF(s.points.copy())][k]
         msv = [1e-4, 1e-6, 1e-5][rng.integers(0, 3)]
+        if rng.random() < 0.3:
+            # a floor that really drops something: just above one of the singular values of this source's system matrix
+            kk_ = (R2LogRRBF if k == 2 else R2LogR2RBF)(s.points.copy()).apply(s.points.copy())
+            pp_ = np.hstack([np.ones((s.n_points, 1)), s.points])
+            sv_ = np.linalg.svd(np.block([[kk_, pp_], [pp_.T, np.zeros((3, 3))]]), compute_uv=False)
+            j_ = int(rng.integers(1, 4))
+            msv = float(np.sqrt(sv_[-j_] * sv_[-j_ - 1])) if sv_[-j_ - 1] > sv_[-j_] * 1.5 else msv
         if rng.random() < 0.5:
             t = mt.ThinPlateSplines(s, tg, kernel=kern, min_singular_val=msv)
         else:
